@@ -142,6 +142,9 @@ func (w *World) ShouldFail(node, method string) bool {
 	} else {
 		w.Faults[key] = out
 	}
+	if fail {
+		w.recordLocked(Obs{Node: node, Kind: "fault-fired", Extra: method})
+	}
 	return fail
 }
 
